@@ -22,6 +22,7 @@ import Proofs.MRT.Zero
 import Props.C03b
 import Props.C09
 import Props.C10
+import Props.C11
 set_option autoImplicit false
 
 namespace Narsese.Props.C09
@@ -122,5 +123,11 @@ example : spellOK Gen.asciiE Gen.asciiL (spell Gen.asciiE σ1 true C01.sampleTas
     spellOK Gen.hanE Gen.hanL (spell Gen.hanE σ1 true C01.sampleTask) C01.sampleTask = true ∧
     spellOK Gen.asciiE Gen.asciiL (spell Gen.asciiE (fun _ => 0) true C01.sampleTask) C01.sampleTask = true := by
   decide +kernel
+
+/-- tie of the model's copula look-ahead list (`EFormat.copulas`, written out in the model) to what the crate's
+`NarseseFormat::copulas()` yields, regenerated on every run: the theorems of this file talk about the model's list -/
+theorem copulas_lookahead_tie :
+    Gen.asciiE.copulas = Gen.asciiCopulasOrder ∧ Gen.latexE.copulas = Gen.latexCopulasOrder ∧
+    Gen.hanE.copulas = Gen.hanCopulasOrder := C11.copulas_order
 
 end Narsese.Props.C09
